@@ -10,7 +10,7 @@ RULE = ('exhaustive: every series over {-2..2} up to length 6 (quick) / 7 (thoro
 TRUSTED = [
     'Coq 8.16.1 kernel + vm_compute',
     'model coq/model/M_peaks.v: zero_crossings = filter by a local test + the pruning loop as coded; switched_peaks = the loop of the code over the C11 peak list; tie = exhaustive + random correspondence (model/K_peaks.v)',
-    'literal statement-by-statement transcription coq/model/M_peaks_pipeline.v of get_zero_crossings_array_indices (numpy pipeline and the tol > 0 loop with its rem_i list / np.delete) and of get_switched_peak_array_indices (the Python loop with its lists and _argmax_abs_w_sign), PROVED equal to zero_crossings keep tol (every non-empty series, every tol) and to switched_peaks tol (every non-constant series, every tol) over R and over Q (props/Prop_C11_pipeline.v); the same cases are also compared with it (chk_zc_pipeline, chk_sp_pipeline), so what remains trusted is reading the transcription against the Python source',
+    'literal statement-by-statement transcription coq/model/M_peaks_pipeline.v of get_zero_crossings_array_indices (numpy pipeline and the tol > 0 loop with its rem_i list / np.delete) and of get_switched_peak_array_indices (the Python loop with its lists and _argmax_abs_w_sign), PROVED equal to zero_crossings keep tol (every non-empty series, every tol) and to switched_peaks tol (every non-constant series, every tol) over R and over Q (props/Prop_C11_pipeline.v); the same cases are also compared with it (chk_zc_pipeline, chk_sp_pipeline), and the transcription is tied to the Python SOURCE TEXT by translator/py2coq_c11.py (fail-closed ast translator, re-run on every check -> coq/gen/Gen_c11.v; the two for loops become folds of generated step functions) + props/Prop_C11_source.v (generated = transcription for every input and number type, axiom-free; loops by induction); what remains trusted there: the Gallina definitions of the numpy primitives, the readings fixed in the translator, the two dead stores after the switched-peak loop (dropped) and the translator itself',
     'float products that underflow are outside every generator',
     'Python harness',
 ]
@@ -25,6 +25,8 @@ def run(rep, rng, tier):
     from eqsig.fns.peaks_and_crossings import get_zero_crossings_array_indices as zc, get_switched_peak_array_indices as sp
     rep.prove('Prop_C12')
     rep.prove('Prop_C11_pipeline')
+    from harness.props.c11 import regen_c11
+    rep.prove('Prop_C11_source', gen_failed=regen_c11())
     zcs, sps, subs = [], [], []
 
     def add_zc(xs, keep, tol):
